@@ -1,5 +1,103 @@
-From CppcmsV Require Import Base.Tac C16.Defs.
+(* C16 -- digests, HMAC and CBC ciphers compute the standard functions for all inputs.
+   Only property theorems here, each closed by `exact <lemma>`; proofs are in the other files of coq/C16.
+   Bytes are N, byte strings list N, a message is fed as a list of chunks (one per append call). *)
+From CppcmsV Require Import Base.Tac C16.Defs C16.Blocks C16.ProofsMd5 C16.ProofsMd5Fin C16.ProofsSha1.
 Local Open Scope N_scope.
-Theorem placeholder_kat : md5_spec [97;98;99] = [144; 1; 80; 152; 60; 210; 79; 176; 214; 150; 63; 125; 40; 225; 127; 114].
+
+(* ---------------------------------------------------------------------------------------------
+   1. streaming = one-shot standard function, for every chunking (empty chunks included).
+      MD5: every chunk shorter than 2^31 bytes (the int nbytes parameter of md5_append; the wrapper
+      truncates size_t to int, see md5_chunk_outside_domain_dropped).  The total length is not bounded:
+      the two-word bit counter of the code and the 64-bit length field of RFC 1321 both wrap mod 2^64.
+      SHA-1: no bound in the model (size_t counters, 64-bit length field as in FIPS 180-4, which defines
+      the function for messages shorter than 2^61 bytes; beyond that sha1_spec wraps the length like the code).
+   --------------------------------------------------------------------------------------------- *)
+Theorem md5_stream : forall chunks,
+  Forall (fun c => len c < 2147483648) chunks ->
+  fst (md5_obj_readout (fold_left md5_obj_append chunks md5_new)) = md5_spec (concat chunks).
+Proof. exact md5_stream_lemma. Qed.
+Print Assumptions md5_stream.
+
+Theorem sha1_stream : forall chunks,
+  fst (sha1_obj_readout (fold_left sha1_obj_append chunks sha1_new)) = sha1_spec (concat chunks).
+Proof. exact sha1_stream_lemma. Qed.
+Print Assumptions sha1_stream.
+
+(* the compression function and initial value the MD5 code uses (T_MASK ^ x constants, 64 SET lines in
+   source order) are those of RFC 1321 section 3.4 (index and shift formulas, T table) *)
+Theorem md5_tables_are_rfc1321 : md5_process = md5_compress_spec /\ md5_abcd0 = md5_iv_rfc.
+Proof. exact (conj md5_process_rfc md5_abcd0_rfc). Qed.
+Print Assumptions md5_tables_are_rfc1321.
+
+(* the or-forms of the round functions in sha1.h are the xor-forms of FIPS 180-4 section 4.1.1 *)
+Theorem sha1_round_functions_are_fips : forall x y z, x < 4294967296 ->
+  N.lor (N.land x y) (N.land (not32 x) z) = fips_Ch x y z /\
+  N.lor (N.lor (N.land x y) (N.land x z)) (N.land y z) = fips_Maj x y z.
+Proof. exact (fun x y z H => conj (ch_or_xor x y z H) (maj_or_xor x y z)). Qed.
+Print Assumptions sha1_round_functions_are_fips.
+
+(* a chunk of 2^31 .. 2^32-1 bytes is silently ignored by md5_digets::append (int conversion): outside the domain *)
+Theorem md5_chunk_outside_domain_dropped : forall st data,
+  2147483648 <= len data < 4294967296 -> md5_obj_append st data = st.
+Proof. exact md5_obj_append_big. Qed.
+Print Assumptions md5_chunk_outside_domain_dropped.
+
+(* ---------------------------------------------------------------------------------------------
+   2. reusable: after readout the object is as good as new - k messages in a row through ONE object
+      each get the digest of their own bytes (whatever was hashed before, whatever is left in the buffer)
+   --------------------------------------------------------------------------------------------- *)
+Theorem md5_reusable : forall msgs,
+  Forall (Forall (fun c => len c < 2147483648)) msgs ->
+  md5_session msgs = map (fun chunks => md5_spec (concat chunks)) msgs.
+Proof. exact md5_session_lemma. Qed.
+Print Assumptions md5_reusable.
+
+Theorem sha1_reusable : forall msgs,
+  sha1_session msgs = map (fun chunks => sha1_spec (concat chunks)) msgs.
+Proof. exact sha1_session_lemma. Qed.
+Print Assumptions sha1_reusable.
+
+(* registers and counters equal those of a new object after every readout, from ANY state *)
+Theorem md5_readout_reinitialises : forall st,
+  let st' := snd (md5_obj_readout st) in
+  m_count0 st' = 0 /\ m_count1 st' = 0 /\ m_abcd st' = md5_abcd0.
+Proof. exact md5_obj_readout_state. Qed.
+Print Assumptions md5_readout_reinitialises.
+
+Theorem sha1_readout_reinitialises : forall st,
+  let st' := snd (sha1_obj_readout st) in
+  s_h st' = sha1_h0 /\ s_idx st' = 0 /\ s_count st' = 0.
+Proof. exact sha1_obj_readout_state. Qed.
+Print Assumptions sha1_readout_reinitialises.
+
+(* non-vacuity + known answers (tests of the specification; RFC 1321 A.5, FIPS 180 examples).
+   "abc" fed as a | empty | bc through the object, then the empty message through the same object. *)
+Example md5_stream_nonvacuous :
+  md5_session [[[97]; []; [98; 99]]; []] =
+  [[0x90;0x01;0x50;0x98;0x3c;0xd2;0x4f;0xb0;0xd6;0x96;0x3f;0x7d;0x28;0xe1;0x7f;0x72];
+   [0xd4;0x1d;0x8c;0xd9;0x8f;0x00;0xb2;0x04;0xe9;0x80;0x09;0x98;0xec;0xf8;0x42;0x7e]].
 Proof. vm_compute. reflexivity. Qed.
-Print Assumptions placeholder_kat.
+Example md5_spec_kat_rfc1321 :
+  md5_spec [] = [0xd4;0x1d;0x8c;0xd9;0x8f;0x00;0xb2;0x04;0xe9;0x80;0x09;0x98;0xec;0xf8;0x42;0x7e] /\
+  md5_spec [97] = [0x0c;0xc1;0x75;0xb9;0xc0;0xf1;0xb6;0xa8;0x31;0xc3;0x99;0xe2;0x69;0x77;0x26;0x61] /\
+  md5_spec [97;98;99] = [0x90;0x01;0x50;0x98;0x3c;0xd2;0x4f;0xb0;0xd6;0x96;0x3f;0x7d;0x28;0xe1;0x7f;0x72] /\
+  (* "message digest" *)
+  md5_spec [109;101;115;115;97;103;101;32;100;105;103;101;115;116] =
+    [0xf9;0x6b;0x69;0x7d;0x7c;0xb7;0x93;0x8d;0x52;0x5a;0x2f;0x31;0xaa;0xf1;0x61;0xd0] /\
+  (* 8 times "1234567890": 80 bytes, two blocks *)
+  md5_spec (concat (repeat [49;50;51;52;53;54;55;56;57;48] 8)) =
+    [0x57;0xed;0xf4;0xa2;0x2b;0xe3;0xc9;0x55;0xac;0x49;0xda;0x2e;0x21;0x07;0xb6;0x7a].
+Proof. vm_compute. repeat split; reflexivity. Qed.
+Example sha1_stream_nonvacuous :
+  sha1_session [[[97]; []; [98; 99]]; []] =
+  [[0xa9;0x99;0x3e;0x36;0x47;0x06;0x81;0x6a;0xba;0x3e;0x25;0x71;0x78;0x50;0xc2;0x6c;0x9c;0xd0;0xd8;0x9d];
+   [0xda;0x39;0xa3;0xee;0x5e;0x6b;0x4b;0x0d;0x32;0x55;0xbf;0xef;0x95;0x60;0x18;0x90;0xaf;0xd8;0x07;0x09]].
+Proof. vm_compute. reflexivity. Qed.
+Example sha1_spec_kat_fips180 :
+  sha1_spec [97;98;99] =
+    [0xa9;0x99;0x3e;0x36;0x47;0x06;0x81;0x6a;0xba;0x3e;0x25;0x71;0x78;0x50;0xc2;0x6c;0x9c;0xd0;0xd8;0x9d] /\
+  (* "abcdbcdecdefdefgefghfghighijhijkijkljklmklmnlmnomnopnopq": 56 bytes, the padding spills into a second block *)
+  sha1_spec [97;98;99;100;98;99;100;101;99;100;101;102;100;101;102;103;101;102;103;104;102;103;104;105;103;104;105;106;
+             104;105;106;107;105;106;107;108;106;107;108;109;107;108;109;110;108;109;110;111;109;110;111;112;110;111;112;113] =
+    [0x84;0x98;0x3e;0x44;0x1c;0x3b;0xd2;0x6e;0xba;0xae;0x4a;0xa1;0xf9;0x51;0x29;0xe5;0xe5;0x46;0x70;0xf1].
+Proof. vm_compute. repeat split; reflexivity. Qed.
